@@ -1,12 +1,52 @@
 /-
-  Line-protocol handlers for C11.  `handle` receives the tokens after the property id.
+  Line-protocol handlers for C11 (per-node metadata).
 -/
 import GEVerif.Model.Sexp
+import GEVerif.Model.Labels
+import GEVerif.Drive.Val
 
 namespace GEVerif.Drive.C11
-open GEVerif Sexp
+open GEVerif Sexp GEVerif.Drive
+
+def keyIdx : TKey → Nat
+  | .int => 0 | .float => 1 | .str => 2 | .bool => 3 | .tuple => 4 | .list => 5
+  | .cls n => 6 + n | .other => 1000000
+
+def keySx : TKey → Sexp
+  | .int => atom "int" | .float => atom "float" | .str => atom "str" | .bool => atom "bool"
+  | .tuple => atom "tuple" | .list => atom "list" | .other => atom "other"
+  | .cls n => list [atom "cls", ofNat n]
+
+def labSx (l : Lab) : Sexp :=
+  list [ofNat l.nodes, ofNat l.dtt, ofNat l.weighted,
+        list ((sortBy (fun (p : TKey × Nat) => keyIdx p.1) l.types).map fun (k, c) => list [keySx k, ofNat c])]
+
+/-- labels of every node and list of the program, in pre-order -/
+def allLabels (g : Grammar) (v : Val) : List Sexp :=
+  v.subvalues.filterMap fun x =>
+    match x with
+    | .node .. => some (labSx (relabel g x))
+    | .list .. => some (labSx (relabel g x))
+    | _ => none
+
+def specLab (g : Grammar) (v : Val) : Lab :=
+  let keys := (v.subvalues.map Val.key).eraseDups
+  ⟨nodesSpec g v, dttSpec g v, weightedSpec g v, keys.map fun k => (k, typeCountSpec v k)⟩
+
+def allSpecLabels (g : Grammar) (v : Val) : List Sexp :=
+  v.subvalues.filterMap fun x =>
+    match x with
+    | .node .. => some (labSx (specLab g x))
+    | .list .. => some (labSx (specLab g x))
+    | _ => none
 
 def handle : List Sexp → Option Sexp
+  | [atom "labels", spec, v] => do
+      let g := analyse (← parseSpec spec)
+      pure (list (allLabels g (← parseVal v)))
+  | [atom "prop_labels", spec, v, labs] => do
+      let g := analyse (← parseSpec spec)
+      pure (ofBool (toString (list (allSpecLabels g (← parseVal v))) == toString labs))
   | _ => none
 
 end GEVerif.Drive.C11
